@@ -37,6 +37,8 @@ pub fn line_menu() -> Vec<&'static str> {
         "110 DIM A(3)",
         "PRINT 1",
         "REM note",
+        "50 DEF FNA() = 5",
+        "60 PRINT FNA()",
         // DATA items behind blanks of more than one byte; two line numbers that agree in their low 32 bits
         "70 DATA\u{a0}1,\u{3000}\u{e9}: PRINT 1 +",
         "4294967306 PRINT 1",
